@@ -1,3 +1,3 @@
--- Model driver for property C18 (stub until the property's model exists).
-import GojaModel.Base.Proto
-def main : IO Unit := GojaModel.Proto.lineMap (fun _ => "unimplemented")
+-- Model driver for property C18 (ordered map behind Map/Set/symbol tables).
+import GojaModel.C18.Driver
+def main : IO Unit := GojaModel.C18.Driver.main
